@@ -651,6 +651,8 @@ def gen_edges_case(rng, family):
 
     n, edges, gkind = A.gen_wgraph(rng)
     fn = rng.choice(["bellman_ford", "bellman_ford", "floyd_warshall", "floyd_warshall", "dijkstra_edges", "bfs_edges", "dfs_edges"])
+    if family in ("M", "Mdec"):
+        fn = rng.choice(["bellman_ford", "bellman_ford", "floyd_warshall", "floyd_warshall", "dijkstra_edges"])
     if fn == "dijkstra_edges":
         edges = [(u, v, abs(w)) for u, v, w in edges]
     case = {"kind": "edges", "fn": fn, "n": n, "edges": [list(e) for e in edges], "scale": ["none"], "container": "list",
@@ -661,7 +663,7 @@ def gen_edges_case(rng, family):
     elif family == "M":
         r = rng.random()
         if r < 0.6:
-            case["scale"] = rng.choice(SCALES)  # exactly representable scaling: distances scale exactly
+            case["scale"] = rng.choice(SCALES + SCALES[7:11])  # exactly representable scaling: distances scale exactly
         elif r < 0.8:  # huge offsets mixed with small numbers; all partial sums below 2^53: still exact
             off = rng.choice([2 ** 31, 10 ** 9, 2 ** 44 + 1, 2 ** 40 + 7])
             case["edges"] = [[u, v, (w + off if w >= 0 and rng.random() < 0.6 else w)] for u, v, w in case["edges"]]
